@@ -25,6 +25,7 @@ import (
 	"bytes"
 	"context"
 	"crypto/sha256"
+	"crypto/sha512"
 	"encoding/hex"
 	"encoding/json"
 	"flag"
@@ -61,6 +62,7 @@ type obj struct {
 	Kind      string   `json:"kind"` // layer config image index artifact
 	MediaType string   `json:"mediaType"`
 	Digest    string   `json:"digest"`
+	Digest512 string   `json:"digest512"`
 	Size      int64    `json:"size"`
 	Children  []string `json:"children"`
 	Subject   string   `json:"subject,omitempty"`
@@ -95,8 +97,13 @@ func sha(b []byte) string {
 	return "sha256:" + hex.EncodeToString(h[:])
 }
 
+func sha5(b []byte) string {
+	h := sha512.Sum512(b)
+	return "sha512:" + hex.EncodeToString(h[:])
+}
+
 func addObj(name, kind, mt string, data []byte, children []string, subject string) *obj {
-	o := &obj{Name: name, Kind: kind, MediaType: mt, Digest: sha(data), Size: int64(len(data)),
+	o := &obj{Name: name, Kind: kind, MediaType: mt, Digest: sha(data), Digest512: sha5(data), Size: int64(len(data)),
 		Children: children, Subject: subject, data: data}
 	cat[name] = o
 	catOrder = append(catOrder, name)
@@ -280,7 +287,7 @@ func mksrc(src string) {
 // spelling of the target layout's path in references (-mode op only): absolute (default) or relative to the
 // working directory; tagDigest makes the tagged manifest put use a reference that carries tag AND digest
 var spell = map[string]string{}
-var tagDigest bool
+var tagDigest, tag512 bool
 
 func tref(dir, tag string) ref.Ref {
 	if sp, ok := spell[dir]; ok {
@@ -313,9 +320,11 @@ func putBlobAs(ctx context.Context, rc *regclient.RegClient, dir, name, variant 
 		d.Digest, d.Size = "", 0
 	case "ns":
 		d.Size = 0
+	case "s512":
+		d.Digest = digest.Digest(o.Digest512)
 	}
 	got, err := rc.BlobPut(ctx, tref(dir, ""), d, bytes.NewReader(o.data))
-	if err == nil && (got.Digest.String() != o.Digest || got.Size != o.Size) {
+	if err == nil && ((got.Digest.String() != o.Digest && got.Digest.String() != o.Digest512) || got.Size != o.Size) {
 		err = fmt.Errorf("BlobPut returned descriptor %s/%d for %s", got.Digest, got.Size, name)
 	}
 	return err
@@ -400,6 +409,15 @@ func runOp(ctx context.Context, rc *regclient.RegClient, dir, src, op string) (e
 		closeRef = tref(dir, arg(1))
 		if tagDigest {
 			closeRef = closeRef.AddDigest(cat[arg(2)].Digest)
+		}
+		if tag512 {
+			// the manifest object itself carries a sha512 descriptor (a reference tag@sha512 alone is not enough:
+			// ocidir keeps the descriptor the manifest was built with)
+			o := cat[arg(2)]
+			if m, err = manifest.New(manifest.WithRaw(o.data), manifest.WithDesc(descriptor.Descriptor{MediaType: o.MediaType,
+				Digest: digest.Digest(o.Digest512), Size: o.Size})); err != nil {
+				break
+			}
 		}
 		err = rc.ManifestPut(ctx, closeRef, m)
 	case "put_digest", "put_refd":
@@ -600,6 +618,9 @@ func probe(ctx context.Context, dir string) (f facts) {
 			continue
 		}
 		f.Res[t] = sha(body)
+		if strings.HasPrefix(m.GetDescriptor().Digest.String(), "sha512:") {
+			f.Res[t] = sha5(body)
+		}
 		if d := m.GetDescriptor().Digest.String(); d != f.Res[t] {
 			f.Notes = append(f.Notes, fmt.Sprintf("%s: descriptor digest %s differs from body hash", t, d))
 			f.Broken = append(f.Broken, t)
@@ -739,6 +760,8 @@ func main() {
 					spell[*dir] = "./" + rel
 				case "td":
 					tagDigest = true
+				case "s512":
+					tag512 = true
 				default:
 					fatal(fmt.Errorf("unknown spelling variant %q", v))
 				}
